@@ -19,7 +19,7 @@ RULE = ('random trees of 2-7 grammar files in up to 3 directory levels (root, pk
         'distribution); non-trivial = a name is defined in >= 2 visible files, or the graph has a diamond or cycle')
 REQUIRED = {'grammar_trees': 200, 'objects_checked': 800, 'names_with_competing_definitions': 200, 'qualified_lookups': 1000,
             'deep_imports': 50, 'diamonds': 20, 'cyclic_trees': 20,
-            'alias_rules': 100, 'alias_to_rule_not_visible_from_root': 10}
+            'alias_rules': 100, 'alias_to_rule_not_visible_from_root': 10, 'qualified_link_references': 100}
 
 DIRS = ['', 'pkg', 'pkg/sub', 'pkg/sub/deep']
 NAMES = ['A', 'B', 'C', 'D']
@@ -97,6 +97,10 @@ def grammar_text(files, info, f, top_names):
         body = "'%s' x=INT" % tag(f, name)
         if sub:
             body += " ('with' sub=%s)?" % sub
+        q = info[f].get('qrefs', {}).get(name)
+        if q:
+            # link reference to a class named with its grammar-file qualifier
+            body += " ('->' qr=[%s.%s|INT])?" % (ns_of(q[0]), q[1])
         out.append('%s: %s;' % (name, body))
     return '\n'.join(out) + '\n'
 
@@ -130,6 +134,10 @@ def emulate_cycle_defect(info):
             res[(f, name)] = hit
             if hit is None and (f != 'main.tx' or resolve(info, f, name)):
                 unresolved.append(name)
+        # class names qualified by a grammar file that is not completely loaded yet when f is finished
+        for name, q in info[f].get('qrefs', {}).items():
+            if not (info[f]['defs'].get(name) or '').startswith('=') and q[0] not in visible_at_finish[f]:
+                unresolved.append('%s.%s' % (ns_of(q[0]), q[1]))
     return res, unresolved
 
 
@@ -144,6 +152,15 @@ def one(ctx, i, rep=None):
             cands = [n for n in NAMES if n != name and resolve(info, f, n)]
             if cands and r.random() < 0.5:
                 info[f]['defs'][name] = r.choice(cands)
+    # qualified class names in link references: [g3.A] where g3.tx is a root-level file imported by the referencing file
+    n_q = 0
+    for f in files:
+        info[f]['qrefs'] = {}
+        for name in list(info[f]['defs']):
+            cands = [(g, n) for g in info[f]['imports'] if '/' not in g for n in info[g]['defs']]
+            if cands and r.random() < 0.3:
+                info[f]['qrefs'][name] = r.choice(cands)
+                n_q += 1
     # alias rules (X: Y;) whose target is an ordinary rule visible from the alias' own file
     n_alias = 0
     for f in files:
@@ -184,6 +201,7 @@ def one(ctx, i, rep=None):
                  wit if ctx.evaluations < 2 else None)
         ctx.count('grammar_trees')
         ctx.count('alias_rules', n_alias)
+        ctx.count('qualified_link_references', sum(1 for f in reach for n in info[f]['qrefs'] if not (info[f]['defs'][n] or '').startswith('=')))
         if any((info[f]['defs'][n] or '').startswith('=') and resolve(info, f, info[f]['defs'][n][1:]) not in (f, None)
                and resolve(info, f, info[f]['defs'][n][1:]) not in ['main.tx'] + info['main.tx']['imports']
                for f in reach if f != 'main.tx' for n in info[f]['defs']):
@@ -233,6 +251,9 @@ def one(ctx, i, rep=None):
                 differs = any(res.get((f, n)) != resolve(info, f, n) for (f, n) in res if resolve(info, f, n))
                 key = 'import-cycle-back-edge' if differs else None
             ctx.violation(key, 'the model text built from the documented rule resolution is rejected: %s' % str(e)[:140], wit, rep)
+            return
+        except Exception as e:
+            ctx.violation(None, 'loading a model with the metamodel raised %s: %s' % (type(e).__name__, str(e)[:120]), wit, rep)
             return
         for obj, exp in zip(m.things, expected):
             chain = []
@@ -284,6 +305,14 @@ def one(ctx, i, rep=None):
                 if mm.namespaces[ns_of(f)][n] is not c:
                     ctx.violation(None, 'two class objects exist for %s' % q, wit, rep)
                     return
+                qr = info[f]['qrefs'].get(n)
+                if qr and not (info[f]['defs'][n] or '').startswith('='):
+                    want = mm.namespaces[ns_of(qr[0])][qr[1]]
+                    a = c._tx_attrs.get('qr')
+                    if a is None or a.cls is not want:
+                        ctx.violation(None, 'link reference [%s.%s] in %s.%s is typed %s' % (
+                            ns_of(qr[0]), qr[1], ns_of(f), n, getattr(getattr(a, 'cls', None), '_tx_fqn', None)), wit, rep)
+                        return
         if set(k for k in mm.namespaces if k != '__base__') != {ns_of(f) for f in reach}:
             ctx.violation(None, 'namespaces %r, imported files %r' % (sorted(k for k in mm.namespaces if k != '__base__'), sorted(ns_of(f) for f in reach)), wit, rep)
     finally:
@@ -312,7 +341,7 @@ def classify_load_error(info, top, cyc, msg):
     import re
     if not cyc:
         return None
-    m = re.search(r'Unexisting rule "(\w+)"', msg)
+    m = re.search(r'Unexisting rule "(\w+)"', msg) or re.search(r'Unknown class/rule "([\w.]+)"', msg)
     if not m:
         return None
     res, unresolved = emulate_cycle_defect(info)
